@@ -550,6 +550,15 @@ int mc_thread_create(pthread_t* t, const pthread_attr_t* a, void* (*fn)(void*), 
     return 0;
 }
 
+/* pthread_create of the CODE UNDER TEST is renamed to this one: a second scheduling point right AFTER the creation, so that the new thread may
+   run (to completion) before the creator executes its next statement - e.g. before it reads something the new thread frees as its first
+   action.  (The harness mains create their model threads with mc_thread_create: nothing of interest happens between their creations.) */
+int mc_thread_create_ut(pthread_t* t, const pthread_attr_t* a, void* (*fn)(void*), void* arg) {
+    int rc = mc_thread_create(t, a, fn, arg);
+    mc_yield();
+    return rc;
+}
+
 int mc_thread_join(pthread_t t, void** ret) {
     int self = enter(OP_JOIN);
     int id = -1;
